@@ -157,4 +157,23 @@ def buildHeader (now : Int) (rules : Int → Rules) (parent : Block) (numTxs : N
   if numTxs = 0 ∧ now < addI64 parent.ts r.minEmptyBlockGap then .error .noTxs else
   .ok ((parent.height + 1) % 18446744073709551616, now)
 
+/-- what the builder does with one mempool transaction: it ends up in the block, or it is
+dropped on the way (repeat within the validity window, `PreExecute` failure such as an
+unfunded sponsor or a misaligned timestamp, …) -/
+inductive MTx where
+  | included
+  | dropped
+  deriving DecidableEq, Repr
+
+/-- `Builder.BuildBlock` as far as the header is concerned: the early `MinBlockGap` test, the
+streaming loop (only its outcome: which transactions made it in), the *trailing*
+`len(blockTransactions) == 0` test against `MinEmptyBlockGap` — keyed on the finished block,
+not on the mempool —, and the header with the parent view's root. -/
+def buildBlock (now : Int) (rules : Int → Rules) (parent : Block) (parentRoot : Nat)
+    (mempool : List MTx) : Except BuildErr Block :=
+  let n := (mempool.filter (· = .included)).length
+  match buildHeader now rules parent n with
+  | .error e => .error e
+  | .ok (h, t) => .ok { height := h, ts := t, numTxs := n, stateRoot := parentRoot }
+
 end HyperModel.BlockCtx
